@@ -78,3 +78,45 @@ func VC17_GUIDCompare() {
 	vsym.Assert(vsym.Implies(CmpEFIGUID(a, b), a == b), "equal GUIDs compare equal with ==")
 	vsym.Reach("end")
 }
+
+var vsymC17Runes = 2
+
+// vRune: a symbolic Unicode scalar value (not NUL, not a surrogate).
+func vRune(name string) rune {
+	r := rune(vsym.U32(name))
+	vsym.Assume(vsym.And(r > 0, r <= 0x10FFFF, vsym.Or(r < 0xD800, r > 0xDFFF)))
+	return r
+}
+
+// vUTF16LE: reference UTF-16LE of a scalar value (surrogate pair for non-BMP), from the definition.
+func vUTF16LE(r rune) []byte {
+	if r < 0x10000 {
+		return []byte{byte(r), byte(r >> 8)}
+	}
+	v := r - 0x10000
+	hi, lo := 0xD800+(v>>10), 0xDC00+(v&0x3FF)
+	return []byte{byte(hi), byte(hi >> 8), byte(lo), byte(lo >> 8)}
+}
+
+// VC17_UTF16: every NUL-free string of 0..vsymC17Runes symbolic code points.
+func VC17_UTF16() {
+	n := vsym.Pick("runes", vsymC17Runes+1)
+	names := []string{"r0", "r1", "r2", "r3"}
+	s := ""
+	var want []byte
+	for i := 0; i < n; i++ {
+		r := vRune(names[i])
+		s += string(r)
+		want = append(want, vUTF16LE(r)...)
+	}
+	want = append(want, 0, 0)
+	enc := MarshalUtf16Var(s)
+	vsym.AssertBytesEq(enc, want, "encoding is UTF-16LE plus one NUL terminator")
+	dec, err := ParseUtf16Var(bytes.NewBuffer(append([]byte{}, enc...)))
+	vsym.Assert(err == nil, "decoding an encoded string succeeds")
+	vsym.AssertBytesEq([]byte(dec), []byte(s), "decoding returns the original string")
+	// input without the terminator is an error
+	_, err2 := ParseUtf16Var(bytes.NewBuffer(append([]byte{}, want[:len(want)-2]...)))
+	vsym.Assert(err2 != nil, "decoding input without the terminator is an error")
+	vsym.Reach("end")
+}
